@@ -788,8 +788,11 @@ def s_ops(draw, max_ops, orders, allow_step):
 
 @st.composite
 def s_history(draw, tier, Ls, cyclic, imag=(False,), orders=(1, 2, 4), max_ops=4, kmax=8.0, bonds=(1, 2, 3), bsym=(False,),
-              allow_tol=True, allow_step=True, ds=(2, 2, 2, 3)):
+              allow_tol=True, allow_step=True, ds=(2, 2, 2, 3), rare_order1=False):
     ham = draw(s_ham1d(Ls=Ls, cyclic=(cyclic,), bsym=bsym, ds=ds, dmax_dense=128))
+    if rare_order1 and draw(st.integers(0, 3)) > 0:
+        # (imaginary time) every order 1 call trips finding C11-a: keep three quarters of the histories clear of it
+        orders = tuple(o for o in orders if o != 1)
     mode = draw(st.sampled_from(["dt", "dt", "tol", "percall"] if allow_tol else ["dt"]))
     return {
         "ham": ham,
@@ -1304,8 +1307,10 @@ def run_cache(case):
 @st.composite
 def s_mpo_prop(draw, tier):
     spec = draw(s_ham1d(Ls=(2, 3, 4, 5), cyclic=(False,), ds=(2,)))
-    return {"ham": spec, "order": draw(st.sampled_from([1, 2, 4])), "x": draw(st.sampled_from(XS)),
-            "contract_sites": draw(st.booleans()), "shape": draw(st.sampled_from(["default", "default", "none", "lrdu"]))}
+    order = draw(st.sampled_from([1, 2, 4]))
+    cs = draw(st.booleans()) and not (order == 4 and spec["L"] > 3)  # fused bonds 4**10: seconds per case
+    return {"ham": spec, "order": order, "x": draw(st.sampled_from(XS)),
+            "contract_sites": cs, "shape": draw(st.sampled_from(["default", "default", "none", "lrdu"]))}
 
 
 def run_mpo_prop(case):
@@ -1351,7 +1356,7 @@ SUBCHECKS = [
              rule="orders 1/2/4 x 0-6 layers: equals the docstring formula, fractions per layer sum to 1, palindromic, Suzuki order condition; unsupported orders raise"),
     SubCheck("tebd_open_real", run_history, strat_hist(Ls=(2, 3, 4, 5, 6, 7), cyclic=False, imag=(False,)), examples=(120, 3000),
              shards=(2, 6), rule="open chain, cutoff 0, real time: after every call t == T (1e-12), dense state == product formula (EXACT64), norm preserved (1e-10); nt as RULE"),
-    SubCheck("tebd_open_imag", run_history, strat_hist(Ls=(2, 3, 4, 5, 6, 7), cyclic=False, imag=(True,)), examples=(100, 2500),
+    SubCheck("tebd_open_imag", run_history, strat_hist(Ls=(2, 3, 4, 5, 6, 7), cyclic=False, imag=(True,), rare_order1=True), examples=(100, 2500),
              shards=(1, 4), rule="open chain, imaginary time: state == normalised product formula, norm == 1 (1e-10), t == T; nt as RULE"),
     SubCheck("tebd_cyclic_even", run_history,
              strat_hist(Ls=(4, 6), cyclic=True, imag=(False, False, False, True), max_ops=2, kmax=3.0, bonds=(1, 2),
